@@ -1,5 +1,7 @@
 mod common;
+mod e2;
 mod model;
+mod sched;
 mod seq;
 
 use common::Report;
@@ -19,6 +21,16 @@ fn check(prop: &str, tier: &str) -> i32 {
                 "bounded: operation alphabet and depth as reported in coverage".into(),
             ];
             seq::run(prop, tier, &mut r);
+            r.finish()
+        }
+        "C02" | "C03" | "C11" => {
+            let mut r = Report::new(prop, tier, "model_checking");
+            r.assumptions = vec![
+                "scheduling points exist where the verif hooks are (DESIGN.md §2.1); reorderings inside one step (inside fjall's commit, inside a tokio channel operation) are trusted".into(),
+                "no unsafe code in the explored paths, so cooperative scheduling hides no data race".into(),
+                "bounded: scenarios, preemption bound and tick horizon as reported in coverage".into(),
+            ];
+            e2::run(prop, tier, &mut r);
             r.finish()
         }
         _ => {
@@ -48,6 +60,7 @@ fn main() {
             }
             match args[2].as_str() {
                 "seq" => seq::worker(&args[3], &args[4]),
+                "e2" => e2::worker(&args[3]),
                 _ => usage(),
             }
             0
@@ -61,6 +74,7 @@ fn main() {
             let rp = &v["replay"];
             let c = match rp["engine"].as_str().unwrap_or("") {
                 "seq" => seq::replay(rp),
+                "e2" => e2::replay(rp),
                 other => {
                     eprintln!("unknown replay engine {:?}", other);
                     2
